@@ -14,6 +14,7 @@ from ..rules.util import callee_name, cfg_of, node_exprs, nodes_where
 from ..tables import C08_RET_EXEMPT
 
 EXPLANATION = (
+    '(23) SENTINEL: a widget obtained from the walker is compared with None by identity, never tested for truthiness (empty containers are falsy; fix for rows_max / __iter__). '
     '(22) GUARD: ListBox.set_focus raises IndexError for an empty body before it parks the pending change and delegates to the walker. '
     '(21) GUARD: a parameter that is range-tested against a length and stored as the focus is first shown to be an integer - isinstance test whose failing edge raises, operator.index - unless the store goes through the MonitoredFocusList.focus property (before fix 54e7f14 SimpleListWalker.set_focus(0.5) stored the float and the ListBox then reported itself empty). '
     "Decided (necessary structural conditions of C08): (1) setter validation: in every focus_position setter (Pile, Columns, GridFlow, Frame, Overlay; Widget's default) the store of the "
@@ -783,6 +784,37 @@ def rule_listbox_empty_setter(ctx: Ctx) -> RuleResult:
     return rr
 
 
+def rule_widget_none_test(ctx: Ctx, clause="C08.23") -> RuleResult:
+    """The walker protocol answers (None, None) when there is no widget.  A widget is an arbitrary object - containers
+    define __len__, so an *empty* Pile, Columns, GridFlow or ListBox is falsy - hence the first element of what
+    get_focus() / get_next() / get_prev() return is compared with None by identity, never tested for truthiness:
+    `if not w` takes an emptied nested container for 'no widget' (focus_position raises for a non-empty ListBox, the
+    focus path is cut short, rows_max() is 0, iteration stops early)."""
+    p = ctx.p
+    rr = RuleResult("SENTINEL", clause, "a widget obtained from the walker (get_focus / get_next / get_prev) is compared with None by identity, never tested for truthiness", floor=20)
+    for fi in p.modules["urwid.widget.listbox"].functions:
+        if fi.is_lambda:
+            continue
+        wn = set()
+        for n in fi.own_nodes():
+            if isinstance(n, ast.Assign) and isinstance(n.value, ast.Call) and isinstance(n.value.func, ast.Attribute) and n.value.func.attr in ("get_focus", "get_next", "get_prev") and isinstance(n.targets[0], ast.Tuple) and n.targets[0].elts and isinstance(n.targets[0].elts[0], ast.Name):
+                wn.add(n.targets[0].elts[0].id)
+        if not wn:
+            continue
+        for n in fi.own_nodes():
+            if isinstance(n, ast.Compare) and isinstance(n.left, ast.Name) and n.left.id in wn and isinstance(n.ops[0], (ast.Is, ast.IsNot)):
+                rr.inst(f"{short(fi)}: {norm(n, 30)}", True, {"test": f"{short(fi)}: {norm(n, 40)}"} if len(rr.samples) < 4 else None)
+            tests = [n.test] if isinstance(n, (ast.If, ast.While, ast.IfExp)) else ([n] if isinstance(n, ast.Assert) else [])
+            for t in tests:
+                parts = list(t.values) if isinstance(t, ast.BoolOp) else [t]
+                for x in parts:
+                    y = x.operand if isinstance(x, ast.UnaryOp) and isinstance(x.op, ast.Not) else x
+                    if isinstance(y, ast.Name) and y.id in wn:
+                        rr.inst(f"{short(fi)}: {norm(t, 30)}", True)
+                        rr.add(finding("SENTINEL", fi, t, f"`{norm(t, 40)}` tests the widget `{y.id}` the walker returned for truthiness; the 'no widget' answer is None, while an empty container widget (Pile([]), Columns([]), an empty ListBox) is falsy too: it is taken for 'nothing there'", construct=f"widget {y.id} tested for truthiness"))
+    return rr
+
+
 def run(ctx: Ctx):
     p = ctx.p
     from ..rules import optcall, sentinel
@@ -815,6 +847,7 @@ def run(ctx: Ctx):
         rule_frame_focus_arg(ctx),
         rule_integral_position(ctx),
         rule_listbox_empty_setter(ctx),
+        rule_widget_none_test(ctx),
         optcall.run_optcall(p, "C08.13", ("urwid.widget",), floor=35),
     ]
 
@@ -824,6 +857,8 @@ _C = "urwid/widget/columns.py"
 _G = "urwid/widget/grid_flow.py"
 _F = "urwid/widget/frame.py"
 MUTANTS = [
+    Mut("listbox-focus-position-truthy-widget", "urwid/widget/listbox.py", "ListBox._get_focus_position", "        if w is None:", "        if not w:", "SENTINEL|widget.listbox.ListBox._get_focus_position|widget w tested for truthiness"),
+    Mut("listbox-rows-max-truthy-focus", "urwid/widget/listbox.py", "ListBox.rows_max", "            if focused_w is not None:  # an empty container is falsy but still a widget", "            if focused_w:", "SENTINEL|widget.listbox.ListBox.rows_max|widget focused_w tested for truthiness"),
     Mut("pile-item-types-reads-focus-of-empty", "urwid/widget/pile.py", "urwid.widget.pile.Pile.item_types", "        focus_position = self.focus_position if self.contents else 0\n", "        focus_position = self.focus_position\n", "GUARD|widget.pile.Pile.item_types|item_types setter: focus_position read without emptiness guard", nth=0),
     Mut("gridflow-cell-width-reads-focus-of-empty", "urwid/widget/grid_flow.py", "urwid.widget.grid_flow.GridFlow.cell_width", "        if not self.contents:\n            # nothing to re-size, and no focus position to keep\n            self._cell_width = width\n            self._invalidate()\n            return\n", "", "GUARD|widget.grid_flow.GridFlow.cell_width|cell_width setter: focus_position read without emptiness guard"),
     Mut("listbox-set-focus-no-empty-test", "urwid/widget/listbox.py", "ListBox.set_focus", "        if focus_widget is None:\n            raise IndexError(\"Can't set focus, ListBox is empty\")\n", "", "GUARD|widget.listbox.ListBox.set_focus|empty ListBox accepts a focus position"),
